@@ -314,7 +314,7 @@ def r17_5_patterns_are_stateless(ctx: Ctx) -> RuleResult:
 
     rr = RuleResult("R17.5", "pattern objects keep no state between calls: outside constructors no method of a pattern class writes to self", min_instances=15)
     M = ctx.M
-    lazy = {(ls.fn.qual, ls.slot) for ls in lazy_slots(M)}
+    lazy_stmts = {id(x) for ls in lazy_slots(M) if ls.problem is None for b in ls.node.body for x in ast.walk(b)}
     for c in sorted(M.all_classes(), key=lambda x: x.qual):
         if "/text/" not in c.mod.rel:
             continue
@@ -329,7 +329,7 @@ def r17_5_patterns_are_stateless(ctx: Ctx) -> RuleResult:
             for s in own_nodes(f.node):
                 tg = s.targets if isinstance(s, ast.Assign) else [s.target] if isinstance(s, (ast.AugAssign, ast.AnnAssign)) else []
                 for t in tg:
-                    if isinstance(t, ast.Attribute) and isinstance(t.value, ast.Name) and t.value.id == f.self_name and (f.qual, unparse(t)) not in lazy:
+                    if isinstance(t, ast.Attribute) and isinstance(t.value, ast.Name) and t.value.id == f.self_name and id(s) not in lazy_stmts:
                         bad = (f, s, unparse(t))
         if bad:
             f, s, t = bad
